@@ -261,8 +261,8 @@ class Gen:
         if d <= 0:
             if self.k.get("p_leaf") and self.p(self.k["p_leaf"]):
                 return {"t": "leaf", "label": self.ch(["A", "B"])}
-            c = self.wch([("field", 6), ("val", 3), ("star", 0.3), ("param", 0.3), ("pseudo", 0.2),
-                          ("null", 0.2)])
+            c = self.wch([("field", 6), ("val", 3), ("star", 0.0 if self.k.get("no_star_leaf") else 0.3), ("param", 0.3),
+                          ("pseudo", 0.2), ("null", 0.2)])
             if c == "field":
                 return self.g_field(scope)
             if c == "val":
